@@ -7,7 +7,7 @@ CONSTANT Tier
 Quick == Tier = "quick"
 
 OctLens == IF Quick THEN {0, 1, 16, 31, 32, 33, 47, 48, 49, 63, 64, 65, 100, 160} ELSE 0..160
-RsaBases == {"rsa512a", "rsa1024a", "rsa2040a", "rsa2047a", "rsa2048a", "rsa2056a", "rsa3072a", "rsa4096a"}
+RsaBases == {"rsa512a", "rsa1024a", "rsa2040a", "rsa2047a", "rsa2048a", "rsa2052a", "rsa2056a", "rsa3072a", "rsa4096a"}
 RsaAlgs == IF Quick THEN {"RS256", "PS256", "RS512"} ELSE RSAlgs \cup PSAlgs
 EcBases == {"p256a", "p384a", "p521a", "k256a", "bp256a", "bp384a", "bp512a", "p224a"}
 OkpBases == {"ed25519a", "ed448a"}
